@@ -54,3 +54,30 @@ CONTRACTS["programs:Program.get_capacity"] = dict(
     relational=dict(vary={"spending": "arr1:1"}, requires=["spending_2[0] >= 0", "spending[0] <= spending_2[0]"]),
     defined_props=["C11"],
 )
+
+
+# ---- ProgramSet.get_prop_coverage: contract on the body of `for prog in self.programs.values()` for an arbitrary program
+def _pc_env(it):
+    from pyvc.interp import PyObjV
+    from pyvc.core import Opaque
+    from pyvc import source
+
+    prog = PyObjV("Program", source.load("programs"), {"name": "prog"})
+    return {"prog": prog, "prop_coverage": {}, "instructions": PyObjV("ProgramInstructions", source.load("programs"), {"coverage": Opaque("coverage dict")}),
+            "capacities": Opaque("capacities"), "num_eligible": Opaque("num_eligible"), "self": Opaque("progset")}
+
+
+CONTRACTS["programs:ProgramSet.get_prop_coverage#per_program"] = dict(
+    schema=schema, fragment={"iter": "self.programs.values()"}, make_env=_pc_env,
+    params={"tvec": "arr1:1", "dt": "real"},
+    ghost_params={"NO_OVERWRITE": "bool", "ONE_OFF": "bool", "PC": "arr1:1", "OV": "arr1:1"},
+    stubs={"prog.name not in instructions.coverage": "NO_OVERWRITE", "prog.is_one_off": "ONE_OFF",
+           "prog.get_prop_covered(tvec, capacities[prog.name], num_eligible[prog.name])": "PC",
+           "instructions.coverage[prog.name].interpolate(tvec, method='previous')": "OV"},
+    requires=["dt > 0", "PC[0] >= 0", "OV[0] >= 0"],
+    ensures=[
+        ("C11+C13.coverage_overwrite_takes_precedence_and_is_per_step", "implies(not NO_OVERWRITE, prop_coverage['prog'][0] == min(OV[0] * (dt if ONE_OFF else 1), 1))"),
+        ("C11+C13.otherwise_coverage_follows_from_capacity", "implies(NO_OVERWRITE, prop_coverage['prog'][0] == min(PC[0], 1))"),
+        ("C11+C13.final_cap_at_one", "prop_coverage['prog'][0] <= 1"),
+    ],
+    defined_props=["C11", "C13"])
